@@ -306,9 +306,9 @@ Definition delete_nodes_mg (mg : list N) (cs : list coord) (d : node) : final :=
   if has_root_coord (leaf_coords cs) then Failed d (YPE NoDocument) else run_del_mg mg (del_plan d cs) d.
 
 (* ================= part 2: set_value / _apply_change / _update_node =======
-   processor.py 169-343 and 2630-2760 after the fix: commits 2481ae4 (sets),
+   processor.py 169-343 and 2700-2860 after the fix: commits 2481ae4 (sets),
    aaea88e (aliases in sequences), f917898 (addressed position + true aliases
-   only); yamlpath/common/nodes.py Nodes.make_new_node / wrap_type 42-253,
+   only), 7612ed9 (a key alias is not renamed onto an existing key); yamlpath/common/nodes.py Nodes.make_new_node / wrap_type 42-253,
    405-441 with the value formats as an enum (DATE / TIMESTAMP not modelled). *)
 
 Inductive vformat := FBare | FBoolean | FDefault | FDquote | FFloat | FFolded | FInt | FLiteral | FSquote.
@@ -496,6 +496,21 @@ Fixpoint recurse (data : node) : node :=
   end.
 End Recurse.
 
+(* renames_onto_existing_key(data) (fix 7612ed9): some mapping holds a key that
+   IS the reference node and would be renamed (`key is change_node and
+   hasattr(key, "anchor")`) beside another key `== new_node`; the walk is
+   recurse()'s (no descent into a value that is the reference node) *)
+Fixpoint key_conflict (roid : N) (repl : node) (data : node) : bool :=
+  match data with
+  | NLeaf _ _ => false
+  | NMap _ kvs =>
+      existsb (fun kv => is_ref roid (fst kv) && hattr (fst kv) &&
+                         existsb (fun kv' => negb (is_ref roid (fst kv')) && key_eqb (fst kv') repl) kvs) kvs
+      || existsb (fun kv => negb (is_ref roid (snd kv)) && key_conflict roid repl (snd kv)) kvs
+  | NSeq _ els => existsb (key_conflict roid repl) els
+  | NSet _ _ => false
+  end.
+
 (* `if isinstance(parent, list) and isinstance(parentref, int) and parentref < 0: parentref += len(parent)` *)
 Definition norm_ref (pn : node) (r : pyval) : pyval :=
   match pn, as_index r with
@@ -541,7 +556,10 @@ Definition update_node (p : pcoord) (value : pyval) (fmt : vformat) (vo : N) (st
           rbind (make_new_node lit fl (option_map node_info chg) value fmt next vo) (fun new =>
           match chg with
           | None => ROk (d, N.succ next)               (* reference_node is None: nothing in a loaded document is replaced *)
-          | Some c => ROk (recurse o r (node_oid c) new d, N.succ next)
+          | Some c =>
+              if key_conflict (node_oid c) new d
+              then RErr (YPE DuplicateKey)             (* refused before anything is changed (fix 7612ed9) *)
+              else ROk (recurse o r (node_oid c) new d, N.succ next)
           end))
       end
   end.
